@@ -36,8 +36,14 @@ static void
 settle(void)
 {
 	// enough complete scans for every batch of the largest scenario, then let the task threads drain
-	for (int i = 0; i < 5; i++) {
-		dee_expire_settle();
+	for (int r = 0; r < 100; r++) {
+		for (int i = 0; i < 5; i++) {
+			dee_expire_settle();
+		}
+		// run every completion the expire thread (or a cancel) has produced; nothing else runs callbacks
+		if (dee_run_all(100000) == 0 && dee_npending() == 0) {
+			break;
+		}
 	}
 	struct timespec ts = { 0, 300000 };
 	for (int i = 0; i < 20000; i++) {
@@ -83,7 +89,7 @@ main(int argc, char **argv)
 	p.max_task_threads   = 2;
 	p.num_expire_threads = 1;
 	p.max_expire_threads = 1;
-	dee_init(0, 1, NULL);
+	dee_init(1, 1, NULL); // task gate: completions run when this thread releases them, so "busy" means "still sleeping"
 	if (nng_init(&p) != 0) {
 		return 3;
 	}
@@ -102,9 +108,12 @@ main(int argc, char **argv)
 			printf("B %ld\n", walk);
 			live0 = acct_live_blocks();
 			memset(blk, 0, sizeof(blk));
+			dee_gate(1);
 			continue;
 		}
 		if (!strcmp(obj, "E")) {
+			dee_gate(0); // stopping an operation waits for its callback
+			dee_run_all(100000);
 			for (int k = 1; k <= MAXB; k++) {
 				for (int j = 0; j < BLOCK && blk[k].used; j++) {
 					nng_aio_stop(blk[k].aio[j]);
